@@ -4,14 +4,26 @@ package wallet
 // `go test -overlay`, never part of the repository).
 
 import (
+	"encoding/hex"
+	"encoding/json"
 	"fmt"
 	"net/http"
 	"net/http/httptest"
+	"os"
 	"testing"
 
+	"github.com/btcsuite/btcd/btcutil/hdkeychain"
+	"github.com/btcsuite/btcd/chaincfg"
+	"github.com/decred/dcrd/dcrec/secp256k1/v4"
 	"github.com/elnosh/gonuts/cashu"
+	"github.com/elnosh/gonuts/cashu/nuts/nut01"
+	"github.com/elnosh/gonuts/cashu/nuts/nut03"
+	"github.com/elnosh/gonuts/cashu/nuts/nut07"
+	"github.com/elnosh/gonuts/cashu/nuts/nut09"
+	"github.com/elnosh/gonuts/cashu/nuts/nut13"
 	"github.com/elnosh/gonuts/crypto"
 	"github.com/elnosh/gonuts/wallet/storage"
+	"github.com/tyler-smith/go-bip39"
 )
 
 // C19: the stored NUT-13 counter never moves backwards. The wallet keeps a copy
@@ -53,5 +65,183 @@ func TestVerifReplay_FeeChangeRewindsCounter(t *testing.T) {
 	}
 	if c := w.counterForKeyset(id); c < 5 {
 		t.Fatalf("CONFIRMED: after the fee change the stored counter is %d: the next outputs reuse counters %d..4 that were already signed", c, c)
+	}
+}
+
+// vFakeMint is a minimal in-process mint for Restore: one sat keyset; it has
+// signed (amount 1) exactly the NUT-13 outputs with counters < signed of the
+// wallet with the given mnemonic, none of them spent.
+func vFakeMint(t *testing.T, mnemonic string, signed uint32) (*httptest.Server, string) {
+	seed := bip39.NewSeed(mnemonic, "")
+	master, err := hdkeychain.NewMaster(seed, &chaincfg.MainNetParams)
+	if err != nil {
+		t.Fatal(err)
+	}
+	mintMaster, _ := hdkeychain.NewMaster([]byte("0123456789abcdef0123456789abcdef"), &chaincfg.MainNetParams)
+	ks, err := crypto.GenerateKeyset(mintMaster, 0, 0, true)
+	if err != nil {
+		t.Fatal(err)
+	}
+	path, err := nut13.DeriveKeysetPath(master, ks.Id)
+	if err != nil {
+		t.Fatal(err)
+	}
+	known := map[string]bool{}
+	for c := uint32(0); c < signed; c++ {
+		secret, r, err := generateDeterministicSecret(path, c)
+		if err != nil {
+			t.Fatal(err)
+		}
+		B_, _, err := crypto.BlindMessage(secret, r)
+		if err != nil {
+			t.Fatal(err)
+		}
+		known[hex.EncodeToString(B_.SerializeCompressed())] = true
+	}
+	mux := http.NewServeMux()
+	mux.HandleFunc("/v1/info", func(rw http.ResponseWriter, req *http.Request) {
+		fmt.Fprint(rw, `{"name":"verif","pubkey":"","version":"v","description":"","nuts":{"4":{"methods":[],"disabled":false},"5":{"methods":[],"disabled":false},"7":{"supported":true},"8":{"supported":true},"9":{"supported":true},"10":{"supported":true},"11":{"supported":true},"12":{"supported":true}}}`)
+	})
+	mux.HandleFunc("/v1/keysets", func(rw http.ResponseWriter, req *http.Request) {
+		fmt.Fprintf(rw, `{"keysets":[{"id":%q,"unit":"sat","active":true,"input_fee_ppk":0}]}`, ks.Id)
+	})
+	mux.HandleFunc("/v1/keys/"+ks.Id, func(rw http.ResponseWriter, req *http.Request) {
+		json.NewEncoder(rw).Encode(nut01.GetKeysResponse{Keysets: []nut01.Keyset{{Id: ks.Id, Unit: "sat", Keys: ks.PublicKeys()}}})
+	})
+	mux.HandleFunc("/v1/restore", func(rw http.ResponseWriter, req *http.Request) {
+		var r nut09.PostRestoreRequest
+		json.NewDecoder(req.Body).Decode(&r)
+		var resp nut09.PostRestoreResponse
+		resp.Outputs = cashu.BlindedMessages{}
+		resp.Signatures = cashu.BlindedSignatures{}
+		for _, o := range r.Outputs {
+			if !known[o.B_] {
+				continue
+			}
+			b, _ := hex.DecodeString(o.B_)
+			B_, _ := secp256k1.ParsePubKey(b)
+			C_ := crypto.SignBlindedMessage(B_, ks.Keys[1].PrivateKey)
+			o.Amount = 1
+			resp.Outputs = append(resp.Outputs, o)
+			resp.Signatures = append(resp.Signatures, cashu.BlindedSignature{Amount: 1, Id: ks.Id, C_: hex.EncodeToString(C_.SerializeCompressed())})
+		}
+		json.NewEncoder(rw).Encode(resp)
+	})
+	mux.HandleFunc("/v1/checkstate", func(rw http.ResponseWriter, req *http.Request) {
+		var r nut07.PostCheckStateRequest
+		json.NewDecoder(req.Body).Decode(&r)
+		resp := nut07.PostCheckStateResponse{}
+		for _, y := range r.Ys {
+			resp.States = append(resp.States, nut07.ProofState{Y: y, State: nut07.Unspent})
+		}
+		json.NewEncoder(rw).Encode(resp)
+	})
+	srv := httptest.NewServer(mux)
+	t.Cleanup(srv.Close)
+	return srv, ks.Id
+}
+
+// C19: after a restore the stored counter must be past every counter in use,
+// and close enough to it that a later restore from the same mnemonic (which
+// gives up after 3 empty batches = 300 counters) still finds what the restored
+// wallet creates next.
+func TestVerifReplay_RestoreCounter(t *testing.T) {
+	var a struct{ Signed uint32 }
+	a.Signed = 350
+	if s := os.Getenv("VERIF_REPLAY_ARGS"); s != "" {
+		json.Unmarshal([]byte(s), &a)
+	}
+	const mnemonic = "half depart obvious quality work element tank gorilla view sugar picture humble"
+	srv, id := vFakeMint(t, mnemonic, a.Signed)
+	dir := t.TempDir()
+	amount, err := Restore(dir, mnemonic, []string{srv.URL})
+	if err != nil {
+		t.Fatal(err)
+	}
+	if amount != uint64(a.Signed) {
+		t.Fatalf("restored %d of %d", amount, a.Signed)
+	}
+	db, err := storage.InitBolt(dir)
+	if err != nil {
+		t.Fatal(err)
+	}
+	defer db.Close()
+	c := db.GetKeysetCounter(id)
+	if c < a.Signed {
+		t.Fatalf("CONFIRMED: stored counter %d is not past the %d counters in use", c, a.Signed)
+	}
+	if c-a.Signed >= 300 {
+		t.Fatalf("CONFIRMED: %d counters in use, stored counter after restore is %d: the restored wallet continues %d counters further on, beyond the 300-counter gap at which a later restore from the same mnemonic stops scanning", a.Signed, c, c-a.Signed)
+	}
+}
+
+// vSwapMint: an in-process mint with one sat keyset charging feePpk that signs
+// every output of a swap (inputs are not checked).
+func vSwapMint(t *testing.T, feePpk uint) (*httptest.Server, *crypto.MintKeyset) {
+	mintMaster, _ := hdkeychain.NewMaster([]byte("0123456789abcdef0123456789abcdef"), &chaincfg.MainNetParams)
+	ks, err := crypto.GenerateKeyset(mintMaster, 0, feePpk, true)
+	if err != nil {
+		t.Fatal(err)
+	}
+	mux := http.NewServeMux()
+	mux.HandleFunc("/v1/keysets", func(rw http.ResponseWriter, req *http.Request) {
+		fmt.Fprintf(rw, `{"keysets":[{"id":%q,"unit":"sat","active":true,"input_fee_ppk":%d}]}`, ks.Id, feePpk)
+	})
+	mux.HandleFunc("/v1/swap", func(rw http.ResponseWriter, req *http.Request) {
+		var r nut03.PostSwapRequest
+		json.NewDecoder(req.Body).Decode(&r)
+		resp := nut03.PostSwapResponse{Signatures: cashu.BlindedSignatures{}}
+		for _, o := range r.Outputs {
+			b, _ := hex.DecodeString(o.B_)
+			B_, _ := secp256k1.ParsePubKey(b)
+			C_ := crypto.SignBlindedMessage(B_, ks.Keys[o.Amount].PrivateKey)
+			resp.Signatures = append(resp.Signatures, cashu.BlindedSignature{Amount: o.Amount, Id: ks.Id, C_: hex.EncodeToString(C_.SerializeCompressed())})
+		}
+		json.NewEncoder(rw).Encode(resp)
+	})
+	srv := httptest.NewServer(mux)
+	t.Cleanup(srv.Close)
+	return srv, ks
+}
+
+// C18: with includeFees the proofs handed out are worth the amount plus the
+// input fee the mint charges for exactly those proofs.
+func TestVerifReplay_SendFeeEstimate(t *testing.T) {
+	var a struct {
+		Amount uint64
+		FeePpk uint
+	}
+	a.Amount, a.FeePpk = 3, 1000
+	if s := os.Getenv("VERIF_REPLAY_ARGS"); s != "" {
+		json.Unmarshal([]byte(s), &a)
+	}
+	srv, ks := vSwapMint(t, a.FeePpk)
+	db, err := storage.InitBolt(t.TempDir())
+	if err != nil {
+		t.Fatal(err)
+	}
+	defer db.Close()
+	wk := crypto.WalletKeyset{Id: ks.Id, MintURL: srv.URL, Unit: "sat", Active: true, PublicKeys: ks.PublicKeys(), InputFeePpk: a.FeePpk}
+	if err := db.SaveKeyset(&wk); err != nil {
+		t.Fatal(err)
+	}
+	var have cashu.Proofs
+	for i := 0; i < 6; i++ {
+		have = append(have, cashu.Proof{Amount: 16, Id: ks.Id, Secret: fmt.Sprintf("stored-%d", i), C: "02" + fmt.Sprintf("%064x", i+1)})
+	}
+	if err := db.SaveProofs(have); err != nil {
+		t.Fatal(err)
+	}
+	master, _ := hdkeychain.NewMaster([]byte("fedcba9876543210fedcba9876543210"), &chaincfg.MainNetParams)
+	mint := walletMint{mintURL: srv.URL, activeKeyset: wk, inactiveKeysets: map[string]crypto.WalletKeyset{}}
+	w := &Wallet{db: db, unit: cashu.Sat, defaultMint: srv.URL, masterKey: master, mints: map[string]walletMint{srv.URL: mint}}
+	proofs, err := w.swapToSend(a.Amount, &mint, nil, true)
+	if err != nil {
+		t.Skipf("send failed: %v", err)
+	}
+	mintFee := (uint64(len(proofs))*uint64(a.FeePpk) + 999) / 1000
+	if proofs.Amount() != a.Amount+mintFee {
+		t.Fatalf("CONFIRMED: send of %d with fees included at %d ppk hands out %d proofs worth %d; the mint charges %d for them, so the recipient nets %d instead of %d",
+			a.Amount, a.FeePpk, len(proofs), proofs.Amount(), mintFee, int64(proofs.Amount())-int64(mintFee), a.Amount)
 	}
 }
